@@ -613,4 +613,8 @@ def units(tier):
     # "switches both directions to encrypted immediately": the networking thread must take the reactor and the file object
     # from the connection at EVERY read, because the encryption step replaces them in the middle of a read batch
     rl.prop, rl.name = 'C10', 'C10.reads-through-current-transport'
-    return [EncStep(), SimpleSteps(), DisconnectStep(), fr, LoginTables(), rl]
+    from . import c16
+    cm = c16.ConnectModel()
+    # every login script starts from plain framing: _connect() resets whatever an earlier login on the same object negotiated
+    cm.prop, cm.name = 'C10', 'C10.connect.starts-plain'
+    return [EncStep(), SimpleSteps(), DisconnectStep(), fr, LoginTables(), rl, cm]
